@@ -53,6 +53,7 @@ def main():
             r = sh(["patch", "-p1", "--no-backup-if-mismatch", "-i", os.path.join(d, "patch.diff")], dst)
             if r.returncode != 0:
                 rows.append((sid, "PATCH DOES NOT APPLY: " + r.stdout[-200:]))
+                print("%-34s %s" % rows[-1], flush=True)
                 continue
             if a.confirm:
                 r1 = sh(["/venv/bin/python", os.path.join(d, "demo.py")], dst, env, 600)
@@ -64,13 +65,15 @@ def main():
                            {"VERIF_REPO": dst, "VERIF_EVIDENCE_DIR": scratch}, 7200)
                     caught = r.returncode == 1 and ("VIOLATION property=%s" % prop) in r.stdout
                     first = next((l.strip() for l in r.stdout.splitlines() if l.strip().startswith("oracle=")), "")
-                    rows.append(("%s/%s seed=%s" % (sid, prop, seed), ("caught" if caught else "MISSED (exit %d)" % r.returncode) + note + "  " + first[:150]))
+                    oos = (meta.get("verif") or {}).get("out_of_scope")
+                    label = "caught" if caught else ("OUT-OF-SCOPE (exit %d; recorded as outside the property as stated, see meta.json)" % r.returncode) if oos else "MISSED (exit %d)" % r.returncode
+                    rows.append(("%s/%s seed=%s" % (sid, prop, seed), label + note + "  " + first[:150]))
+                    print("%-34s %s" % rows[-1], flush=True)
         finally:
             shutil.rmtree(scratch, ignore_errors=True)
-    for k, v in rows:
-        print("%-34s %s" % (k, v))
-    missed = [k for k, v in rows if not v.startswith("caught")]
-    print("%d runs, %d not caught" % (len(rows), len(missed)))
+    missed = [k for k, v in rows if not v.startswith(("caught", "OUT-OF-SCOPE"))]
+    oos_n = len([k for k, v in rows if v.startswith("OUT-OF-SCOPE")])
+    print("%d runs, %d not caught%s" % (len(rows), len(missed), (", %d out of scope" % oos_n) if oos_n else ""))
     return 1 if missed else 0
 
 
